@@ -98,7 +98,7 @@ def check_c05(ctx):
     if not quick:
         gens.append(("GenImportClosure6.cfg", 3000, 3))
     scn = _scenarios(ctx, gens, free_every=4 if quick else 3)
-    events, _ = core.vh_sharded(ctx, "importclosure", scn, timeout=3000)
+    events = _run_closures(ctx, "C05", scn)
     prints, nev, _ = core.validate(ctx, "ImportClosureTrace", "ImportClosureTrace.cfg", events)
     judged, shapes, stalls = _judge(ctx, "C05", scn, events, prints)
     if stalls:
@@ -111,6 +111,27 @@ def check_c05(ctx):
            "exhaustive": False,
            "samples": [scn[0], scn[-1]] if scn else []}
     return core.finish(ctx, "model_checking", cov, ASSUME)
+
+
+def _run_closures(ctx, pid, scn):
+    """Runs the import-closure driver; a driver process that dies (a panic on a goroutine nobody can recover) is a run
+    without a result for the scenario it was on: reported directly, the other scenarios are judged as usual."""
+    raw, _ = core.vh_sharded(ctx, "importclosure", scn, timeout=3000, resilient=True)
+    by_id = {s["id"]: s for s in scn}
+    events = []
+    for i, e in enumerate(raw):
+        if e["e"] == "start":
+            continue
+        if e["e"] == "fatal":
+            s = by_id.get(e["t"], {})
+            kinds = sorted({v for v in s.get("fail", {}).values() if v != "none"})
+            core.add_violation(ctx, "%s/driver-died/%s/%s" % (pid, "+".join(kinds) or "no-fault", e.get("site", "unknown")),
+                               "import closure scenario %s: the process died: %s at %s; graph=%s fail=%s" %
+                               (e["t"], e.get("msg"), e.get("site"), json.dumps(s.get("imports")), json.dumps(s.get("fail"))),
+                               {"family": "importclosure", "scenario": s})
+            continue
+        events.append(e)
+    return events
 
 
 def check_c06(ctx):
@@ -127,7 +148,7 @@ def check_c06(ctx):
            or any(a for al in s.get("aliases", {}).values() for a in al)]
     for i, s in enumerate(scn):
         s["id"] = i + 1
-    events, _ = core.vh_sharded(ctx, "importclosure", scn, timeout=3000)
+    events = _run_closures(ctx, "C06", scn)
     prints, nev, _ = core.validate(ctx, "ImportClosureTrace", "ImportClosureTrace.cfg", events)
     judged, shapes, stalls = _judge(ctx, "C06", scn, events, prints)
     if stalls:
